@@ -1,18 +1,36 @@
 /*@UNIT
 {
-  "property": "C13",
-  "unit": "mul_2d",
-  "function": "pstm_mul_2d",
-  "source": "crypto/math/pstm.c",
-  "keep_bodies": ["pstm_copy", "pstm_lshd", "pstm_clamp"],
-  "replace": ["pstm_grow"],
-  "mode": "proof",
-  "why_proof": "the loop of pstm_mul_2d and the loops of the inlined pstm_copy, pstm_lshd, pstm_clamp are closed by in-place loop contracts (hook H1): every digit count up to PSTM_MAX_SIZE, every non-negative 15-bit shift count; pstm_grow is replaced by its contract (enforced in unit grow)",
-  "loop_contracts": true,
-  "object_bits": 8,
-  "cases": [{"name": "distinct", "defs": []}, {"name": "alias_ca", "defs": ["ALIAS_CA=1"]}],
-  "native_replay": false,
-  "timeout": 600
+ "property": "C13",
+ "unit": "mul_2d",
+ "function": "pstm_mul_2d",
+ "source": "crypto/math/pstm.c",
+ "keep_bodies": [
+  "pstm_copy",
+  "pstm_lshd",
+  "pstm_clamp"
+ ],
+ "replace": [
+  "pstm_grow"
+ ],
+ "mode": "proof",
+ "why_proof": "the loop of pstm_mul_2d and the loops of the inlined pstm_copy, pstm_lshd, pstm_clamp are closed by in-place loop contracts (hook H1): every digit count up to PSTM_MAX_SIZE, every non-negative 15-bit shift count; pstm_grow is replaced by its contract (enforced in unit grow)",
+ "loop_contracts": true,
+ "object_bits": 8,
+ "cases": [
+  {
+   "name": "distinct",
+   "defs": []
+  },
+  {
+   "name": "alias_ca",
+   "defs": [
+    "ALIAS_CA=1"
+   ]
+  }
+ ],
+ "native_replay": false,
+ "timeout": 600,
+ "tier": "thorough"
 }
 @*/
 /* C13.mul_2d  c = a * 2^b (bit shift left; static, used by pstm_read_unsigned_bin and pstm_div) for all
